@@ -794,4 +794,383 @@ theorem mem_keys_pushFold {α : Type} (f : α → Column) : ∀ (l : List α) (a
       · exact Or.inr h
 
 
+/-! ## 5. the wiring invariant -/
+
+/-- the type an edge must have, read off its endpoints: column → column LINEAGE, owner → column HAS_COLUMN, the rest (dataset →
+    alias string) HAS_ALIAS -/
+def kind (u v : Node) : EType := if u.isCol then .lineage else if v.isCol then .hasColumn else .hasAlias
+
+def Typed (g : LGraph) : Prop := ∀ a b, (a, b) ∈ g.edges → g.ety a b = some (kind a b)
+/-- no owner candidate of a column is a subquery -/
+def colOK (c : Column) : Prop := ∀ p ∈ c.parents, p.1.isSubq = false
+def PayOK (g : LGraph) : Prop := ∀ n c, g.payload n = some (.col c) → colOK c
+
+theorem typed_addEdge (g : LGraph) (u v : Node) (ty : EType) (i : Option Nat) (pu pv : Option Payload) (h : Typed g)
+    (hty : ty = kind u v) : Typed (g.addEdge u v ty i pu pv) := by
+  intro a b hm
+  rw [ety_addEdge]
+  by_cases hab : a = u ∧ b = v
+  · rw [if_pos hab, hab.1, hab.2, hty]
+  · rw [if_neg hab]
+    rcases (mem_edges_addEdge _ _ _ _ _ _ _ _).mp hm with h1 | h1
+    · exact h a b h1
+    · exact absurd (by simpa using h1) hab
+
+theorem payOK_addEdge (g : LGraph) (u v : Node) (ty : EType) (i : Option Nat) (pu pv : Option Payload) (h : PayOK g)
+    (hu : ∀ c, pu = some (.col c) → colOK c) (hv : ∀ c, pv = some (.col c) → colOK c) : PayOK (g.addEdge u v ty i pu pv) := by
+  intro n c hc
+  rcases payload_addEdge_cases _ _ _ _ _ _ _ _ _ hc with h1 | h1 | h1
+  · exact h n c h1
+  · exact hu c h1
+  · exact hv c h1
+
+/-- `add_column_lineage(src, tgt)` when the target column has one owner -/
+def addLin (g : LGraph) (src tgt : Column) (tp : DS × String) : LGraph :=
+  let g := g.addEdge src.key tgt.key .lineage none (some (.col src)) (some (.col tgt))
+  let g := g.addEdge (.ds tp.1) tgt.key .hasColumn none (some (.sub tp.2)) (some (.col tgt))
+  match src.parent? with
+  | some sp => g.addEdge (.ds sp.1) src.key .hasColumn none (some (.sub sp.2)) (some (.col src))
+  | none => g
+
+theorem addColumnLineage_eq (g : LGraph) (src tgt : Column) (tp : DS × String) (h : tgt.parent? = some tp) :
+    addColumnLineage g src tgt = .ok (addLin g src tgt tp) := by
+  unfold addColumnLineage addLin
+  rw [h]
+  cases src.parent? <;> rfl
+
+theorem key_isCol (c : Column) : c.key.isCol = true := rfl
+theorem colParent_key (c : Column) : colParent c.key = c.parent?.map (·.1) := rfl
+
+theorem mem_edges_addLin (g : LGraph) (src tgt : Column) (tp : DS × String) (e : Node × Node) :
+    e ∈ (addLin g src tgt tp).edges ↔ e ∈ g.edges ∨ e = (src.key, tgt.key) ∨ e = (.ds tp.1, tgt.key) ∨
+      ∃ sp, src.parent? = some sp ∧ e = (.ds sp.1, src.key) := by
+  unfold addLin
+  cases h : src.parent? with
+  | none => simp [mem_edges_addEdge, or_assoc]
+  | some sp => simp [mem_edges_addEdge, or_assoc]
+
+theorem frame_addLin (g : LGraph) (src tgt : Column) (tp : DS × String) : Frame g (addLin g src tgt tp) := by
+  unfold addLin
+  have f1 := Frame.addEdge g src.key tgt.key .lineage none (some (.col src)) (some (.col tgt)) (Or.inl (key_isCol _))
+  have f2 := Frame.addEdge (g.addEdge src.key tgt.key .lineage none (some (.col src)) (some (.col tgt)))
+    (.ds tp.1) tgt.key .hasColumn none (some (.sub tp.2)) (some (.col tgt)) (Or.inr (key_isCol _))
+  cases src.parent? with
+  | none => exact f1.trans f2
+  | some sp => exact (f1.trans f2).trans (Frame.addEdge _ _ _ _ _ _ _ (Or.inr (key_isCol _)))
+
+theorem typed_addLin (g : LGraph) (src tgt : Column) (tp : DS × String) (h : Typed g) : Typed (addLin g src tgt tp) := by
+  unfold addLin
+  have t1 := typed_addEdge g src.key tgt.key .lineage none (some (.col src)) (some (.col tgt)) h rfl
+  have t2 := typed_addEdge _ (.ds tp.1) tgt.key .hasColumn none (some (.sub tp.2)) (some (.col tgt)) t1 rfl
+  cases src.parent? with
+  | none => exact t2
+  | some sp => exact typed_addEdge _ _ _ _ _ _ _ t2 rfl
+
+theorem payOK_addLin (g : LGraph) (src tgt : Column) (tp : DS × String) (h : PayOK g) (hs : colOK src) (ht : colOK tgt) :
+    PayOK (addLin g src tgt tp) := by
+  unfold addLin
+  have hS : ∀ c, (some (Payload.col src)) = some (.col c) → colOK c := by
+    intro c hc; cases hc; exact hs
+  have hT : ∀ c, (some (Payload.col tgt)) = some (.col c) → colOK c := by
+    intro c hc; cases hc; exact ht
+  have hN : ∀ (x : String) c, (some (Payload.sub x)) = some (.col c) → colOK c := by
+    intro x c hc; cases hc
+  have t1 := payOK_addEdge g src.key tgt.key .lineage none (some (.col src)) (some (.col tgt)) h hS hT
+  have t2 := payOK_addEdge _ (.ds tp.1) tgt.key .hasColumn none (some (.sub tp.2)) (some (.col tgt)) t1 (hN _) hT
+  cases src.parent? with
+  | none => exact t2
+  | some sp => exact payOK_addEdge _ _ _ _ _ _ _ t2 (hN _) hS
+
+theorem mem_specOwners (K : List (Node × Node)) (x : Node × Node) :
+    x ∈ specOwners K ↔ ∃ p ∈ K, (∃ d, colParent p.1 = some d ∧ x = (.ds d, p.1)) ∨ (∃ d, colParent p.2 = some d ∧ x = (.ds d, p.2)) := by
+  unfold specOwners
+  simp only [List.mem_flatMap, List.mem_append]
+  constructor
+  · rintro ⟨p, hp, h | h⟩
+    · refine ⟨p, hp, Or.inl ?_⟩
+      cases hc : colParent p.1 with
+      | none => rw [hc] at h; cases h
+      | some d => rw [hc] at h; simp only [List.mem_singleton] at h; exact ⟨d, rfl, h⟩
+    · refine ⟨p, hp, Or.inr ?_⟩
+      cases hc : colParent p.2 with
+      | none => rw [hc] at h; cases h
+      | some d => rw [hc] at h; simp only [List.mem_singleton] at h; exact ⟨d, rfl, h⟩
+  · rintro ⟨p, hp, ⟨d, hd, hx⟩ | ⟨d, hd, hx⟩⟩
+    · exact ⟨p, hp, Or.inl (by rw [hd]; simp [hx])⟩
+    · exact ⟨p, hp, Or.inr (by rw [hd]; simp [hx])⟩
+
+/-- the holder `g` is the holder `g1` (after the reads) plus exactly the column pairs `K`: LINEAGE edges `K`, HAS_COLUMN edges
+    from the owners recorded in the keys, every edge typed by its endpoints, nothing else touched -/
+structure Wired (g1 g : LGraph) (K : List (Node × Node)) : Prop where
+  frame : Frame g1 g
+  lin : ∀ u v, u.isCol = true → ((u, v) ∈ g.edges ↔ (u, v) ∈ K)
+  own : ∀ u v, u.isCol = false → v.isCol = true → ((u, v) ∈ g.edges ↔ (u, v) ∈ specOwners K)
+  ty : Typed g
+  pay : PayOK g
+
+theorem Wired.base {g1 : LGraph} {tabs : List DObj} {T : DS} (h : ReadBase g1 tabs T) : Wired g1 g1 [] := by
+  refine ⟨Frame.refl g1, ?_, ?_, ?_, ?_⟩
+  · intro u v hu
+    constructor
+    · intro he
+      obtain ⟨⟨d, a, hd, _⟩, _⟩ := h.edges u v he
+      rw [hd] at hu; cases hu
+    · intro he; cases he
+  · intro u v _ hv
+    constructor
+    · intro he
+      obtain ⟨⟨d, a, _, ha⟩, _⟩ := h.edges u v he
+      rw [ha] at hv; cases hv
+    · intro he; simp [specOwners] at he
+  · intro a b he
+    obtain ⟨⟨d, x, hd, hx⟩, hy⟩ := h.edges a b he
+    rw [hy, hd, hx]; rfl
+  · intro n c hc
+    exact absurd hc (h.pay n c)
+
+theorem Wired.congr {g1 g : LGraph} {K K' : List (Node × Node)} (h : Wired g1 g K) (hk : ∀ x, x ∈ K ↔ x ∈ K') :
+    Wired g1 g K' := by
+  refine ⟨h.frame, fun u v hu => (h.lin u v hu).trans (hk _), fun u v hu hv => (h.own u v hu hv).trans ?_, h.ty, h.pay⟩
+  rw [mem_specOwners, mem_specOwners]
+  constructor
+  · rintro ⟨p, hp, x⟩; exact ⟨p, (hk p).mp hp, x⟩
+  · rintro ⟨p, hp, x⟩; exact ⟨p, (hk p).mpr hp, x⟩
+
+theorem Wired.step {g1 g : LGraph} {K : List (Node × Node)} (h : Wired g1 g K) (src tgt : Column) (tp : DS × String)
+    (htp : tgt.parent? = some tp) (hs : colOK src) (ht : colOK tgt) :
+    Wired g1 (addLin g src tgt tp) (K ++ [(src.key, tgt.key)]) := by
+  refine ⟨h.frame.trans (frame_addLin g src tgt tp), ?_, ?_, typed_addLin g src tgt tp h.ty,
+    payOK_addLin g src tgt tp h.pay hs ht⟩
+  · intro u v hu
+    rw [mem_edges_addLin, h.lin u v hu, List.mem_append, List.mem_singleton]
+    constructor
+    · rintro (h1 | h1 | h1 | ⟨sp, _, h1⟩)
+      · exact Or.inl h1
+      · exact Or.inr h1
+      · have : u = .ds tp.1 := congrArg Prod.fst h1
+        rw [this] at hu; cases hu
+      · have : u = .ds sp.1 := congrArg Prod.fst h1
+        rw [this] at hu; cases hu
+    · rintro (h1 | h1)
+      · exact Or.inl h1
+      · exact Or.inr (Or.inl h1)
+  · intro u v hu hv
+    rw [mem_edges_addLin, h.own u v hu hv, mem_specOwners, mem_specOwners]
+    have hct : colParent tgt.key = some tp.1 := by rw [colParent_key, htp]; rfl
+    constructor
+    · rintro (⟨p, hp, x⟩ | h1 | h1 | ⟨sp, hsp, h1⟩)
+      · exact ⟨p, List.mem_append.mpr (Or.inl hp), x⟩
+      · have : u = src.key := congrArg Prod.fst h1
+        rw [this, key_isCol] at hu; cases hu
+      · exact ⟨(src.key, tgt.key), by simp, Or.inr ⟨tp.1, hct, h1⟩⟩
+      · refine ⟨(src.key, tgt.key), by simp, Or.inl ⟨sp.1, ?_, h1⟩⟩
+        rw [colParent_key, hsp]; rfl
+    · rintro ⟨p, hp, x⟩
+      rcases List.mem_append.mp hp with hp | hp
+      · exact Or.inl ⟨p, hp, x⟩
+      · simp only [List.mem_singleton] at hp
+        subst hp
+        rcases x with ⟨d, hd, hx⟩ | ⟨d, hd, hx⟩
+        · simp only at hd hx
+          rw [colParent_key] at hd
+          cases hsp : src.parent? with
+          | none => rw [hsp] at hd; cases hd
+          | some sp =>
+            rw [hsp] at hd
+            simp only [Option.map_some, Option.some.injEq] at hd
+            exact Or.inr (Or.inr (Or.inr ⟨sp, rfl, by rw [hx, hd]⟩))
+        · simp only at hd hx
+          rw [hct] at hd
+          exact Or.inr (Or.inr (Or.inl (by rw [hx, ← Option.some.inj hd])))
+
+/-- the inner loop of `end_of_query_cleanup` for one select item: every source column is wired to the item's column -/
+theorem wired_inner {g1 : LGraph} (tgt : Column) (tp : DS × String) (htp : tgt.parent? = some tp) (ht : colOK tgt) :
+    ∀ (srcs : List Column) (g : LGraph) (K : List (Node × Node)), Wired g1 g K → (∀ s ∈ srcs, colOK s) →
+      ∃ g', srcs.foldlM (fun g s => addColumnLineage g s tgt) g = .ok g' ∧
+        Wired g1 g' (K ++ srcs.map (fun s => (s.key, tgt.key)))
+  | [], g, K, h, _ => ⟨g, rfl, by simpa using h⟩
+  | s :: r, g, K, h, hs => by
+    have h1 := h.step s tgt tp htp (hs s (by simp)) ht
+    obtain ⟨g', hg', hw⟩ := wired_inner tgt tp htp ht r _ _ h1 (fun x hx => hs x (by simp [hx]))
+    refine ⟨g', ?_, by simpa using hw⟩
+    simp only [List.foldlM_cons, bind, Except.bind, addColumnLineage_eq g s tgt tp htp]
+    exact hg'
+
+
+/-! ### the number of write columns stays below the number of select items
+
+`cleanupItem` wires an item to `write_columns[idx]` only when the target already has as many columns as the group has items.
+Without column list / provider the target gains at most one column per item, so this never happens. -/
+
+theorem outT_addLin (g : LGraph) (src tgt : Column) (tp : DS × String) (T : DS) (hT : tp.1 = T)
+    (hs : ∀ sp, src.parent? = some sp → sp.1 ≠ T) :
+    (addLin g src tgt tp).outEdges (.ds T) =
+      if tgt.key ∈ g.outEdges (.ds T) then g.outEdges (.ds T) else g.outEdges (.ds T) ++ [tgt.key] := by
+  have e1 : (g.addEdge src.key tgt.key .lineage none (some (.col src)) (some (.col tgt))).outEdges (.ds T) =
+      g.outEdges (.ds T) := by
+    rw [outEdges_addEdge, if_neg]
+    rintro ⟨h, _⟩; cases h
+  have e2 : ((g.addEdge src.key tgt.key .lineage none (some (.col src)) (some (.col tgt))).addEdge (.ds tp.1) tgt.key
+      .hasColumn none (some (.sub tp.2)) (some (.col tgt))).outEdges (.ds T) =
+      if tgt.key ∈ g.outEdges (.ds T) then g.outEdges (.ds T) else g.outEdges (.ds T) ++ [tgt.key] := by
+    rw [outEdges_addEdge, hT, e1]
+    by_cases hm : tgt.key ∈ g.outEdges (.ds T)
+    · simp [hm]
+    · simp [hm]
+  unfold addLin
+  cases hp : src.parent? with
+  | none => exact e2
+  | some sp =>
+    simp only
+    rw [outEdges_addEdge, if_neg, e2]
+    rintro ⟨h, _⟩
+    exact hs sp hp (Node.ds.inj h).symm
+
+theorem outT_inner (tgt : Column) (tp : DS × String) (htp : tgt.parent? = some tp) (T : DS) (hT : tp.1 = T) :
+    ∀ (srcs : List Column) (g g' : LGraph), (∀ s ∈ srcs, ∀ sp, s.parent? = some sp → sp.1 ≠ T) →
+      srcs.foldlM (fun g s => addColumnLineage g s tgt) g = .ok g' →
+      (tgt.key ∈ g.outEdges (.ds T) → g'.outEdges (.ds T) = g.outEdges (.ds T)) ∧
+      (g'.outEdges (.ds T)).length ≤ (g.outEdges (.ds T)).length + 1
+  | [], g, g', _, h => by
+    simp only [List.foldlM_nil, pure, Except.pure] at h
+    cases h
+    exact ⟨fun _ => rfl, Nat.le_succ _⟩
+  | s :: r, g, g', hs, h => by
+    simp only [List.foldlM_cons, bind, Except.bind, addColumnLineage_eq g s tgt tp htp] at h
+    have ih := outT_inner tgt tp htp T hT r _ g' (fun x hx => hs x (by simp [hx])) h
+    have e := outT_addLin g s tgt tp T hT (hs s (by simp))
+    by_cases hm : tgt.key ∈ g.outEdges (.ds T)
+    · rw [if_pos hm] at e
+      have := ih.1 (by rw [e]; exact hm)
+      rw [e] at this
+      exact ⟨fun _ => this, by rw [this]; exact Nat.le_succ _⟩
+    · rw [if_neg hm] at e
+      have := ih.1 (by rw [e]; simp)
+      rw [e] at this
+      exact ⟨fun x => absurd x hm, by rw [this]; simp⟩
+
+theorem length_insertByIdx (x : Node × Nat) : ∀ acc, (insertByIdx x acc).length = acc.length + 1
+  | [] => rfl
+  | y :: r => by
+    simp only [insertByIdx]
+    split
+    · rfl
+    · simp [length_insertByIdx x r]
+
+theorem length_sortByIdx (l : List (Node × Nat)) : (sortByIdx l).length = l.length := by
+  have gen : ∀ (l acc : List (Node × Nat)), (l.foldl (fun acc x => insertByIdx x acc) acc).length = acc.length + l.length := by
+    intro l
+    induction l with
+    | nil => intro acc; rfl
+    | cons x r ih =>
+      intro acc
+      simp only [List.foldl_cons, ih, length_insertByIdx, List.length_cons]
+      omega
+  simpa [sortByIdx] using gen l []
+
+theorem length_writeColumns_le (g : LGraph) (T : DS) (h : targetTable? g = some T) :
+    (writeColumns g).length ≤ (g.outEdges (.ds T)).length := by
+  unfold writeColumns
+  rw [h]
+  simp only [List.length_map, length_sortByIdx]
+  exact List.length_filter_le _ _
+
+theorem targetTable_of (g : LGraph) (T : DS) (hw : writeSet g = [T]) (hr : T ∉ readSet g) : targetTable? g = some T := by
+  unfold targetTable?
+  rw [hw]
+  simp [hr]
+
+/-- one select item: its sources (as the fragment resolves them) are wired to the item's OWN column of the target -/
+theorem cleanupItem_wired {g1 g : LGraph} {K : List (Node × Node)} (imp : String) (T : DS) (Tp : String) (n : Nat)
+    (tabs : List DObj) (c : ColSpec) (idx k : Nat) (srcs : List Column) (h : Wired g1 g K)
+    (hsrc : toSourceColumns imp (aliasMapping g tabs) c k = srcs) (hok : ∀ s ∈ srcs, colOK s)
+    (hlen : (writeColumns g).length < n) (hTs : T.isSubq = false) :
+    ∃ g', cleanupItem imp (T, Tp) n tabs g (c, idx) k = .ok g' ∧
+      srcs.foldlM (fun g s => addColumnLineage g s (Column.mk1 c.raw (some (T, Tp)))) g = .ok g' ∧
+      Wired g1 g' (K ++ srcs.map (fun s => (s.key, (Column.mk1 c.raw (some (T, Tp))).key))) := by
+  have hne : ((writeColumns g).length == n) = false := by
+    simp only [beq_eq_false_iff_ne]; omega
+  have hown : colOK (Column.mk1 c.raw (some (T, Tp))) := by
+    intro p hp
+    simp only [Column.mk1, List.mem_singleton] at hp
+    rw [hp]; exact hTs
+  obtain ⟨g', hg', hw⟩ := wired_inner (g1 := g1) (Column.mk1 c.raw (some (T, Tp))) (T, Tp) rfl hown srcs g K h hok
+  refine ⟨g', ?_, hg', hw⟩
+  unfold cleanupItem
+  simp only [hsrc, hne, Bool.false_eq_true, if_false]
+  cases srcs with
+  | nil =>
+    simp only [List.foldlM_nil, pure, Except.pure] at hg'
+    simp only [List.isEmpty_nil, if_true]
+    exact hg'
+  | cons s r =>
+    simp only [List.isEmpty_cons, Bool.false_eq_true, if_false]
+    exact hg'
+
+
+/-- the pairs the group `cols` contributes when item `c` resolves to the source columns `SRC c` -/
+def groupPairs (SRC : ColSpec → List Column) (tp : DS × String) (cols : List ColSpec) : List (Node × Node) :=
+  cols.flatMap (fun c => (SRC c).map (fun x => (x.key, (Column.mk1 c.raw (some tp)).key)))
+
+/-- the loop over the select items of `end_of_query_cleanup`, from item `j` on -/
+theorem cleanupFold_wired {g1 : LGraph} (imp : String) (s nm : String) (n : Nat) (tabs : List DObj) (k : Nat)
+    (SRC : ColSpec → List Column)
+    (hws : writeSet g1 = [.table s nm]) (hrs : DS.table s nm ∉ readSet g1) :
+    ∀ (rest : List ColSpec) (j : Nat) (g : LGraph) (K : List (Node × Node)), Wired g1 g K →
+      (g.outEdges (.ds (.table s nm))).length ≤ j → j + rest.length ≤ n →
+      (∀ c ∈ rest, ∀ g, Frame g1 g → toSourceColumns imp (aliasMapping g tabs) c k = SRC c) →
+      (∀ c ∈ rest, ∀ x ∈ SRC c, colOK x ∧ ∀ sp, x.parent? = some sp → sp.1 ≠ .table s nm) →
+      ∃ g', (rest.zipIdx j).foldlM
+          (fun g ci => cleanupItem imp (.table s nm, printedDS g (.table s nm)) n tabs g ci k) g = .ok g' ∧
+        Wired g1 g' (K ++ groupPairs SRC (.table s nm, s ++ "." ++ nm) rest)
+  | [], j, g, K, h, _, _, _, _ => ⟨g, rfl, by simpa [groupPairs] using h⟩
+  | c :: r, j, g, K, h, hL, hn, hsrc, hok => by
+    have hw : writeSet g = [.table s nm] := by unfold writeSet; rw [tagSet_eq_of_frame h.frame]; exact hws
+    have hr : DS.table s nm ∉ readSet g := by unfold readSet; rw [tagSet_eq_of_frame h.frame]; exact hrs
+    have htt := targetTable_of g _ hw hr
+    have hlen : (writeColumns g).length < n := by
+      have := length_writeColumns_le g _ htt
+      simp only [List.length_cons] at hn
+      omega
+    obtain ⟨g', hg', hfold, hw'⟩ := cleanupItem_wired imp (.table s nm) (s ++ "." ++ nm) n tabs c j k (SRC c) h
+      (hsrc c (by simp) g h.frame) (fun x hx => (hok c (by simp) x hx).1) hlen rfl
+    have hL' : (g'.outEdges (.ds (.table s nm))).length ≤ j + 1 := by
+      have := (outT_inner (Column.mk1 c.raw (some (.table s nm, s ++ "." ++ nm))) (.table s nm, s ++ "." ++ nm) rfl
+        (.table s nm) rfl (SRC c) g g' (fun x hx => (hok c (by simp) x hx).2) hfold).2
+      omega
+    obtain ⟨g'', hg'', hw''⟩ := cleanupFold_wired imp s nm n tabs k SRC hws hrs r (j + 1) g' _ hw' hL'
+      (by simp only [List.length_cons] at hn; omega) (fun c' hc' => hsrc c' (by simp [hc']))
+      (fun c' hc' => hok c' (by simp [hc']))
+    refine ⟨g'', ?_, by simpa [groupPairs, List.append_assoc] using hw''⟩
+    simp only [List.zipIdx_cons, List.foldlM_cons, bind, Except.bind]
+    have : cleanupItem imp (.table s nm, printedDS g (.table s nm)) n tabs g (c, j) k = .ok g' := hg'
+    rw [this]
+    exact hg''
+
+theorem outT_base {g1 : LGraph} {tabs : List DObj} {T : DS} (h : ReadBase g1 tabs T) : g1.outEdges (.ds T) = [] := by
+  rw [List.eq_nil_iff_forall_not_mem]
+  intro v hv
+  exact h.srcT v ((mem_outEdges g1 _ _).mp hv)
+
+theorem slice_full {α : Type} (l : List α) : slice l 0 l.length = l := by simp [slice]
+
+/-- `end_of_query_cleanup` of ONE select block whose holder `g` gives `ReadBase` after the reads -/
+theorem endOfQueryCleanup_wired (imp : String) (g : LGraph) (s nm : String) (tabs : List DObj) (cols : List ColSpec) (k : Nat)
+    (SRC : ColSpec → List Column)
+    (hb : ReadBase (tabs.foldl addReadO g) tabs (.table s nm)) (hself : ∀ o ∈ tabs, o.d ≠ .table s nm)
+    (hsrc : ∀ c ∈ cols, ∀ g', Frame (tabs.foldl addReadO g) g' → toSourceColumns imp (aliasMapping g' tabs) c k = SRC c)
+    (hok : ∀ c ∈ cols, ∀ x ∈ SRC c, colOK x ∧ ∀ sp, x.parent? = some sp → sp.1 ≠ .table s nm) :
+    ∃ g2, endOfQueryCleanup imp g tabs cols [] k = .ok g2 ∧
+      Wired (tabs.foldl addReadO g) g2 (groupPairs SRC (.table s nm, s ++ "." ++ nm) cols) := by
+  obtain ⟨g2, hg2, hw⟩ := cleanupFold_wired imp s nm cols.length tabs k SRC hb.writeSet (hb.notRead hself) cols 0
+    (tabs.foldl addReadO g) [] (Wired.base hb) (by rw [outT_base hb]; simp) (by simp) hsrc hok
+  refine ⟨g2, ?_, by simpa using hw⟩
+  unfold endOfQueryCleanup
+  simp only [List.nil_append, endOfQueryCleanup.go, slice_full]
+  unfold cleanupGroup
+  rw [hb.writeSet]
+  simp only
+  rw [hg2]
+
+
 end SqlLineage.ColumnsExact
